@@ -148,6 +148,7 @@ HEADER = '''(* GENERATED by translate/cover.py from /repo/homonim - do not edit.
    utils.covers_bounds of the current source: the decision on the window (roff, coff, h, w) of the source bounds in the reference pixel grid,
    reference shape (H, W). *)
 From Coq Require Import ZArith QArith Bool.
+From HVgen Require NormalFormCases.     (* the source was read through the normal form that file ties to its proved model *)
 Open Scope Q_scope.
 
 Definition translation_failed : bool := %s.
